@@ -329,7 +329,12 @@ func geoAttrs(e *Elem, ser []int) []kv {
 	case "circle":
 		add("cx", g[0], true)
 		add("cy", g[1], true)
-		add("r", g[2], false)
+		if len(g) > 3 && g[3] > 0 {
+			// a percentage of the normalised diagonal of the viewport (SVG 7.10); the model holds the percentage
+			out = append(out, kv{"r", itoa(g[3]) + "%"})
+		} else {
+			add("r", g[2], false)
+		}
 	case "ellipse":
 		add("cx", g[0], true)
 		add("cy", g[1], true)
